@@ -1,6 +1,8 @@
 package main
 
 import (
+	"github.com/matrix-org/gomatrixserverlib/spec"
+	"errors"
 	"fmt"
 	"sort"
 	"strings"
@@ -236,6 +238,69 @@ func runC10(c *mon.Ctx) {
 				}
 				c.Count("resolutions")
 				c.Count(fmt.Sprintf("algorithm_%d", sc.s.t.StateRes))
+				if sc.s.t.StateRes == 1 {
+					// a fault, version 1: the sender lookup fails once, at its k-th call. The version-1 algorithm resolves
+					// every ordinary key on its own against the resolved create / power-levels / join-rules / member events,
+					// one candidate and one auth check at a time: a single check that went wrong can cost the candidate it
+					// was about. So where no key of those auth types resolves differently than without the fault, at most
+					// one other key does.
+					byKey := func(ps []gmsl.PDU) map[ref.SKey]string {
+						m := map[ref.SKey]string{}
+						for _, p := range ps {
+							m[ref.SKey{Type: p.Type(), Key: *p.StateKey()}] = p.EventID()
+						}
+						return m
+					}
+					base := byKey(got)
+					authType := map[string]bool{"m.room.create": true, "m.room.power_levels": true, "m.room.join_rules": true, "m.room.member": true, "m.room.third_party_invite": true}
+					for k := 1; k <= 10; k++ {
+						calls := 0
+						flaky := func(roomID spec.RoomID, senderID spec.SenderID) (*spec.UserID, error) {
+							calls++
+							if calls == k {
+								return nil, errors.New("scripted fault (once)")
+							}
+							return userIDForSender(roomID, senderID)
+						}
+						var fgot []gmsl.PDU
+						var ferr error
+						if site, msg, pan := mon.Guard(func() {
+							fgot, ferr = gmsl.ResolveConflictsNew(ver, sc.stateSets, authList, flaky, func(id string) bool { return rejected[id] })
+						}); pan {
+							c.Failf("stateres:panic:sender-lookup-fails-once:"+site, "ResolveConflictsNew(v%s) panics when the sender lookup fails at call %d: %s", ver, k, msg)
+							break
+						}
+						c.Count("v1_resolutions_with_a_sender_lookup_failing_once")
+						if ferr != nil || calls < k {
+							continue
+						}
+						fm := byKey(fgot)
+						authDiffers, others := false, []string{}
+						for key, id := range base {
+							if fm[key] != id {
+								if authType[key.Type] {
+									authDiffers = true
+								} else {
+									others = append(others, key.Type+"["+key.Key+"]")
+								}
+							}
+						}
+						for key := range fm {
+							if _, ok := base[key]; !ok {
+								if authType[key.Type] {
+									authDiffers = true
+								} else {
+									others = append(others, key.Type+"["+key.Key+"]")
+								}
+							}
+						}
+						if !authDiffers && len(others) > 1 {
+							sort.Strings(others)
+							c.Failf("stateres:alg1:one-failed-lookup-costs-several-keys", "v%s: with the sender lookup failing once (call %d) the create / power-levels / join-rules / member events resolve as without the fault, yet %d other keys resolve differently: %v", ver, k, len(others), others)
+							break
+						}
+					}
+				}
 				gotIDs := idsOf(got)
 				if tr.ConflictedPower > 0 && tr.ConflictedOther > 0 || tr.FallbackUsed {
 					all := []string{}
